@@ -351,6 +351,14 @@ class SyncInterpreter(BaseInterpreter[TContext, TEvent]):
         limit = getattr(self.machine, "max_iterations", 1000)
         try:
             while self._event_queue:
+                # 🏁 Once the machine is done, failed or stopped nothing more
+                #    is processed — the async run loop stops on the same
+                #    condition. Events still queued at that point (raised by
+                #    the very actions that completed the machine) used to be
+                #    handled anyway, running user code after completion.
+                if self.status != "running":
+                    self._event_queue.clear()
+                    break
                 processed += 1
                 if processed > limit:
                     logger.error(
